@@ -91,6 +91,19 @@ theorem mapM_asInt_npscalars (dt : DType) (hint : dt.isInteger = true) (bs : Lis
   | nil => rfl
   | cons a as ih => simp [List.mapM_cons, Val.asInt?, hint, ih]
 
+/-- an element taken out of an integer array reads as the integer the array holds there, whatever the byte order -/
+theorem asInt_nativeScalar (dt : DType) (hint : dt.isInteger = true) (b : Bytes) :
+    Val.asInt? (nativeScalar dt b) = some (decodeInt dt b) := by
+  have h2 : ({ dt with big := false } : DType).isInteger = true := by simpa [DType.isInteger] using hint
+  simp only [nativeScalar, Val.asInt?, h2, if_true]
+  cases hb : dt.big <;> simp [decodeInt, hb]
+
+theorem mapM_asInt_natives (dt : DType) (hint : dt.isInteger = true) (bs : List Bytes) :
+    (bs.map (nativeScalar dt)).mapM Val.asInt? = some (bs.map (decodeInt dt)) := by
+  induction bs with
+  | nil => rfl
+  | cons a as ih => simp [List.mapM_cons, asInt_nativeScalar dt hint, ih]
+
 /-- `tuple(v[1:])` of a shape value `[c, *spatial]` reads as `spatial` -/
 theorem tupleOfTail_reading (v : Val) (c : Int) (spatial : List Int) (h : Spec.shapeOfVal v = some (c :: spatial)) :
     ∃ ys, tupleOfTail v = .ok (.tuple ys) ∧ ys.mapM Val.asInt? = some spatial := by
@@ -108,8 +121,8 @@ theorem tupleOfTail_reading (v : Val) (c : Int) (spatial : List Int) (h : Spec.s
         | cons b rest =>
           rw [hc] at h
           simp only [List.map_cons, List.cons.injEq] at h
-          refine ⟨rest.map (Val.npscalar dt), by simp [tupleOfTail, hc], ?_⟩
-          rw [mapM_asInt_npscalars dt hint, h.2]
+          refine ⟨rest.map (nativeScalar dt), by simp [tupleOfTail, hc], ?_⟩
+          rw [mapM_asInt_natives dt hint, h.2]
       · split at h <;> simp at h
   | tuple xs =>
     simp only [Spec.shapeOfVal] at h
@@ -223,7 +236,7 @@ theorem shapeIndex_one (v : Val) (c n1 : Int) (h : Spec.shapeOfVal v = some [c, 
         | [b0, b1], h =>
           rw [hc] at hw
           simp only [List.map_cons, List.map_nil, List.cons.injEq, and_true] at h
-          refine ⟨.npscalar dt b1, ?_, by simp [Val.asInt?, hint, h.2]⟩
+          refine ⟨nativeScalar dt b1, ?_, by simp [asInt_nativeScalar dt hint, h.2]⟩
           simp [shapeIndex, hw, hc]
       · split at h <;> simp at h
   | tuple xs =>
@@ -385,8 +398,8 @@ theorem shapeTail_reading (v : Val) (c : Int) (spatial : List Int) (h : Spec.sha
           have htail : chunks dt.size (d.drop dt.size) = rest := by rw [chunks_drop _ hsz, hc]; rfl
           have hlen : spatial.length = rest.length := by rw [← h.2]; simp
           refine ⟨⟨.arr dt [n - 1] (d.drop dt.size), by simp [shapeTail], ?_⟩,
-                  ⟨.npscalar dt b, by simp [shapeIndex, hw, hc], by simp [Val.asInt?, hint, h.1],
-                    fun dt' b' e => by cases e; exact hnu⟩⟩
+                  ⟨nativeScalar dt b, by simp [shapeIndex, hw, hc], by simp [asInt_nativeScalar dt hint, h.1],
+                    fun dt' b' e => by simp only [nativeScalar, Val.npscalar.injEq] at e; rw [← e.1]; exact hnu⟩⟩
           refine ⟨rfl, by simp [Val.len?, hw, hlen], ?_⟩
           intro i hi
           have hi' : i < n - 1 := by rw [hw]; simp; omega
